@@ -108,10 +108,10 @@ def call_api(ws, api):
     try:
         if api == "recv_frame":
             f = ws.recv_frame()
-            return ("ret", (f.fin, f.opcode, bytes(f.data)))
+            return ("ret", (f.fin, f.opcode, env.B(f.data)))
         if api == "recv_data_frame":
             o, f = ws.recv_data_frame(True)
-            return ("ret", (o, bytes(f.data)))
+            return ("ret", (o, env.B(f.data)))
         v = ws.recv()
         return ("ret", v)
     except lib.websocket.WebSocketTimeoutException:
